@@ -176,7 +176,7 @@ class Binder:
             return var + ('->' + cp[1:] if arrow == '->' else cp)
         names = '|'.join(re.escape(v) for v in s.c.cxx)
         if not names: return e
-        return re.sub(r'\b(%s)(->|\.)([A-Za-z_]\w*(?:\.[A-Za-z_]\w*)*)' % names, repl, e)
+        return re.sub(r'\b(%s)(->|\.)([A-Za-z_]\w*(?:#\d+)?(?:\.[A-Za-z_]\w*(?:#\d+)?)*)' % names, repl, e)
     extra_types = {}
     def for_contract(s, e):
         e = s.resolve_members(e)
@@ -222,9 +222,16 @@ static inline I64 NARROW_SREM(I64 a, I64 b){ __CPROVER_assume(-(1LL<<(ARITH_NARR
 #ifndef LL2C_NATIVE
 #define LIB_ASSERT_FAIL(msg) do{ __CPROVER_assert(0, msg); __CPROVER_assume(0); }while(0)
 #endif
+#ifdef LL2C_NATIVE
+#define PTR_SANE(p) 1
+#else
+/* the symbolic base pointer sits in the middle of CBMC's 56-bit offset range, so that +-2^51 bytes never wrap (an artefact of its pointer encoding, not of the code) */
+#define PTR_SANE(p) ((p) != 0 && (I64)__CPROVER_POINTER_OFFSET(p) >= (1LL<<52) && (I64)__CPROVER_POINTER_OFFSET(p) < (1LL<<53))
+#endif
 #define IMPLIES(a,b) (!(a) || (b))
 #define BIG (1LL<<40)
 #define INR(x) (-BIG < (x) && (x) < BIG)
+#define INOFF(x) (-(1LL<<48) < (x) && (x) < (1LL<<48))
 '''
 
 def lemma_header():
